@@ -292,16 +292,26 @@ def aligned_datasets(R, rng, tier):
         slsets = [[slice(0, 2), slice(1, None), slice(None, None, 2)][:len(shape)], [slice(1, 2), slice(None), slice(1, 3)][:len(shape)],
                   [slice(None, None, 2), slice(0, 3, 2), slice(None)][:len(shape)]]
         views = view_catalogue(oshape, rng, small=True, max_views=50, ellipsis_in_tuples=False)
+        cases = []
         for sl in slsets:
-            st = S.SliceSubsetState(ref, list(sl))
             fullref = np.zeros(shape, bool)
             fullref[tuple(sl)] = True
+            cases.append((sl, S.SliceSubsetState(ref, list(sl)), fullref))
+        # regions drawn on the pixel attributes of `ref` (its last and first axis), evaluated on the other dataset, where the same
+        # attributes run along other axis numbers
+        from glue.core import roi as G
+        idx = np.indices(shape)
+        for (x0, x1, y0, y1) in ((0.5, 2.5, -0.5, 1.5), (-0.5, 0.5, 0.5, 5.0)):
+            fullref = (idx[-1] > x0) & (idx[-1] < x1) & (idx[0] > y0) & (idx[0] < y1)
+            cases.append(('rectangle(%g,%g,%g,%g) on the last and first pixel axis of ref' % (x0, x1, y0, y1),
+                          S.RoiSubsetState(ref.pixel_component_ids[-1], ref.pixel_component_ids[0], G.RectangularROI(x0, x1, y0, y1)), fullref))
+        for sl, st, fullref in cases:
             exp_full = np.transpose(fullref, perm)
             try:
                 got_full = np.asarray(oth.get_mask(st))
             except Exception as e:
-                R.fail("view|aligned|full|exception:%s" % type(e).__name__, "slice selection on %r evaluated on a dataset with axes permuted by %r raised %s: %s"
-                       % (shape, perm, type(e).__name__, e), None)
+                R.fail("view|aligned|full|exception:%s" % type(e).__name__, "selection %r on %r evaluated on a dataset with axes permuted by %r raised %s: %s"
+                       % (sl, shape, perm, type(e).__name__, e), None)
                 continue
             R.count(('al', shape, perm, repr(sl), 'full'), 'aligned-datasets')
             if got_full.shape != exp_full.shape or not np.array_equal(got_full, exp_full):
